@@ -8,7 +8,6 @@ import (
 	"encoding/json"
 	"errors"
 	"fmt"
-	"io"
 	"math/rand"
 	"os"
 	"os/exec"
@@ -35,8 +34,8 @@ import (
 //             when the script says so, the hook returns only when the script
 //             says so, and after every event the controller waits for
 //             quiescence (every started, unfinished thread is parked in the
-//             hook or blocked in sync.Mutex.Lock, read off the goroutine
-//             states).  Waiters that get the gate after a release are
+//             hook or blocked on another goroutine - mutex, channel, cond -
+//             read off the goroutine states).  Waiters that get the gate after a release are
 //             identified by goroutine id inside the hook and appended to the
 //             event list as the go events they are in the model (the REALISED
 //             event list is what the Coq model is run on).
@@ -45,9 +44,17 @@ import (
 //   oncefree: free-running goroutines released by a barrier against one fresh
 //             HttpServer: landing / describe / health pages, __describe__ and
 //             Server.ProtocolHash; digests of everything each reader saw.
-//   race:     builds this harness with -race and runs race_inner in it: 16
-//             goroutines of mixed traffic against ONE server; reports the race
-//             detector's verdict (a TEST, not part of the proof).
+//   race:     builds a small stand-alone driver (c40traffic.go + rpcutil.go +
+//             httputil.go, assembled with go build -overlay) with -race and
+//             runs it: 16 goroutines of mixed traffic against ONE server;
+//             reports the race detector's verdict (a TEST, not part of the proof).
+//
+// Watchdog: no wait is unbounded.  A caller that neither returns, parks in the
+// hook nor blocks on another goroutine within c40Patience makes the case
+// "stuck" (an observable the model never produces and spec_ok rejects), the
+// rest of its script is skipped, leftovers are leaked; after c40StuckBudget of
+// such waiting every later wait is 40 ms.  The controller's own reads, the
+// free-running readers and the -race build/run are under timeouts as well.
 
 type c40Ev struct {
 	Op string `json:"op"` // go | rel | peek
@@ -153,8 +160,35 @@ func c40GoStates() map[uint64]string {
 	return out
 }
 
+// c40Blocked: the goroutine waits for another goroutine (whatever primitive
+// the code under test uses to make a caller wait: mutex, channel, cond ...).
 func c40Blocked(state string) bool {
-	return strings.HasPrefix(state, "sync.Mutex.Lock") || strings.HasPrefix(state, "semacquire")
+	for _, p := range []string{"sync.Mutex.Lock", "sync.RWMutex", "semacquire", "chan receive", "chan send",
+		"select", "sync.Cond.Wait", "sync.WaitGroup.Wait"} {
+		if strings.HasPrefix(state, p) {
+			return true
+		}
+	}
+	return false
+}
+
+// Watchdog.  No wait in this harness is unbounded: a caller that neither
+// returns, parks in the hook nor blocks is given c40Patience, the case is then
+// marked stuck (an observable: the model says false and spec_ok rejects it),
+// its remaining events are skipped, and once c40StuckBudget of waiting has been
+// spent in one process every later wait gets 40 ms only.
+const (
+	c40Patience    = 3 * time.Second
+	c40StuckBudget = 12 * time.Second
+)
+
+var c40StuckSpent time.Duration
+
+func c40WaitLimit() time.Duration {
+	if c40StuckSpent >= c40StuckBudget {
+		return 40 * time.Millisecond
+	}
+	return c40Patience
 }
 
 // park is called by the gated function (the hook / the Once body) on the
@@ -219,7 +253,11 @@ func (c *c40Ctl) launch(t int) {
 // thread that moved on its own (a waiter that got the gate). attrib is the
 // thread whose movement the event just issued already stands for.
 func (c *c40Ctl) settle(attrib int) {
-	deadline := time.Now().Add(10 * time.Second)
+	if c.stuck {
+		return
+	}
+	limit := c40WaitLimit()
+	deadline := time.Now().Add(limit)
 	calm := 0
 	for {
 		moved := false
@@ -301,6 +339,7 @@ func (c *c40Ctl) settle(attrib int) {
 		}
 		if time.Now().After(deadline) {
 			c.stuck = true
+			c40StuckSpent += limit
 			return
 		}
 		time.Sleep(20 * time.Microsecond)
@@ -336,7 +375,11 @@ func (c *c40Ctl) release() {
 // cleanup lets everything run to the end (after the observation was taken).
 func (c *c40Ctl) cleanup() {
 	c.draining.Store(true)
-	deadline := time.Now().Add(10 * time.Second)
+	limit := c40WaitLimit()
+	if c.stuck {
+		limit = 40 * time.Millisecond // whatever is wedged stays wedged; leak it
+	}
+	deadline := time.Now().Add(limit)
 	for {
 		c.mu.Lock()
 		for _, e := range c.entries {
@@ -352,7 +395,13 @@ func (c *c40Ctl) cleanup() {
 				all = false
 			}
 		}
-		if all || time.Now().After(deadline) {
+		if all {
+			return
+		}
+		if time.Now().After(deadline) {
+			if !c.stuck {
+				c40StuckSpent += limit
+			}
 			return
 		}
 		time.Sleep(50 * time.Microsecond)
@@ -468,6 +517,23 @@ func c40RunNotify(in c40In) CaseOut {
 	bound := func() [2]int {
 		return [2]int{c40KindID(srv.TransportKind()), c40CapsID(srv.TransportCapabilities())}
 	}
+	// the controller's own reads are under the watchdog too (a server that holds
+	// transportMu across the hook would otherwise wedge the controller)
+	ctlBound := func() [2]int {
+		ch := make(chan [2]int, 1)
+		go func() { ch <- bound() }()
+		limit := c40WaitLimit()
+		select {
+		case b := <-ch:
+			return b
+		case <-time.After(limit):
+			if !ctl.stuck {
+				ctl.stuck = true
+				c40StuckSpent += limit
+			}
+			return [2]int{9998, 9998}
+		}
+	}
 	if in.Hook {
 		srv.SetServeStartHook(func(kind vgirpc.TransportKind, caps map[string]bool) error {
 			seen := bound() // the hook may inspect the binding: takes transportMu under the gate
@@ -503,18 +569,21 @@ func c40RunNotify(in c40In) CaseOut {
 	})
 	var peeks [][2]int
 	for _, ev := range in.Evs {
+		if ctl.stuck {
+			break // watchdog fired: the rest of the script is skipped, the case is reported stuck
+		}
 		switch ev.Op {
 		case "go":
 			ctl.goT(ev.T)
 		case "rel":
 			ctl.release()
 		default:
-			peeks = append(peeks, bound())
+			peeks = append(peeks, ctlBound())
 			ctl.realised = append(ctl.realised, c40REv{"peek", 0})
 		}
 	}
 	// observation, before anything is drained
-	final := bound()
+	final := ctlBound()
 	ctl.mu.Lock()
 	var runs []c40Run
 	for _, e := range ctl.entries {
@@ -603,7 +672,7 @@ func c40RunNotify(in c40In) CaseOut {
 			}
 			return App("C40.TOk", Opt(true, c40Bind(r.Read)))
 		}),
-		ListOf(peeks, c40Bind), c40Bind(final))
+		ListOf(peeks, c40Bind), c40Bind(final), Bool(stuck))
 	type o struct {
 		Runs     []c40Run `json:"runs"`
 		Outs     [][2]int `json:"outs"`
@@ -637,6 +706,9 @@ func c40RunOnce(in c40In) CaseOut {
 		reads[t] = val
 	})
 	for _, ev := range in.Evs {
+		if ctl.stuck {
+			break
+		}
 		if ev.Op == "go" {
 			ctl.goT(ev.T)
 		} else {
@@ -684,44 +756,11 @@ func c40RunOnce(in c40In) CaseOut {
 		tags = append(tags, "stuck")
 	}
 	coqIn := App("C40.OnceRun", ListOf(in.Cands, N), c40RenderEvs(ob.Realised, "C40.OGo", "C40.ORelease", "C40.ORelease"))
-	coqObs := App("C40.OOnce", N(uint64(count)), List(rd), cached)
+	coqObs := App("C40.OOnce", N(uint64(count)), List(rd), cached, Bool(ob.Stuck))
 	return CaseOut{Coq: Pair(coqIn, coqObs), Tags: tags, Nontrivial: count > 0, Obs: ob}
 }
 
 // ---------------------------------------------------------------- oncefree
-
-func c40NewHTTP(prefix string, hook vgirpc.ServeStartHook) (*vgirpc.HttpServer, *vgirpc.Server, *Surface) {
-	sf := newSurface()
-	s := NewScriptedServer(sf)
-	s.SetServerID("c40-server")
-	s.SetServiceName("c40svc")
-	vgirpc.Unary(s, "c40_open", func(_ context.Context, cc *vgirpc.CallContext, p PInt) (int64, error) {
-		return p.X, cc.OpenSession(&c40Sess{N: p.X}, 0)
-	})
-	vgirpc.Unary(s, "c40_peek", func(_ context.Context, cc *vgirpc.CallContext, p PInt) (int64, error) {
-		if ss, ok := cc.Session().(*c40Sess); ok {
-			ss.N++ // same-session calls are serialised by the entry lock
-			return ss.N, nil
-		}
-		return -1, nil
-	})
-	if hook != nil {
-		s.SetServeStartHook(hook)
-	}
-	s.SetDispatchHook(vgirpc.NewAccessLogHook(io.Discard, "c40"))
-	h := vgirpc.NewHttpServer(s)
-	if prefix != "" {
-		h.SetPrefix(prefix)
-	}
-	h.SetRepoURL("https://example.invalid/repo")
-	h.EnableSticky(time.Minute)
-	if err := h.SetCompressionLevel(3); err != nil {
-		panic(err)
-	}
-	return h, s, sf
-}
-
-type c40Sess struct{ N int64 }
 
 func c40Digest(parts ...[]byte) string {
 	h := sha256.New()
@@ -794,16 +833,35 @@ func c40RunOnceFree(in c40In) CaseOut {
 		}(i)
 	}
 	close(start)
-	wg.Wait()
-	// reference: a second, identically configured server read sequentially
-	h2, s2, sf2 := c40NewHTTP(in.Prefix, nil)
-	defer sf2.Close()
-	ref, _ := c40ReadAll(h2, s2, in.Prefix)
+	// watchdog: readers that do not come back are a fault, not a hang
+	waitFor := func(f func()) bool {
+		done := make(chan struct{})
+		go func() { f(); close(done) }()
+		limit := 10 * c40WaitLimit()
+		select {
+		case <-done:
+			return true
+		case <-time.After(limit):
+			c40StuckSpent += limit
+			return false
+		}
+	}
 	set := map[string]bool{}
 	nf := 0
-	for i := range digests {
-		set[digests[i]] = true
-		nf += faults[i]
+	var ref string
+	if !waitFor(wg.Wait) {
+		nf += 1000
+	} else {
+		// reference: a second, identically configured server read sequentially
+		h2, s2, sf2 := c40NewHTTP(in.Prefix, nil)
+		defer sf2.Close()
+		if !waitFor(func() { ref, _ = c40ReadAll(h2, s2, in.Prefix) }) {
+			nf += 1000
+		}
+		for i := range digests {
+			set[digests[i]] = true
+			nf += faults[i]
+		}
 	}
 	// the serve-start hook running more than once is a fault as well
 	if n > 0 && hookRuns.Load() != 1 {
@@ -820,156 +878,6 @@ func c40RunOnceFree(in c40In) CaseOut {
 		Obs: map[string]any{"readers": n, "distinct": distinct, "faults": nf, "refmatch": match, "hook_runs": hookRuns.Load()}}
 }
 
-// -------------------------------------------------------------------- race
-
-// c40Traffic drives g goroutines x rounds of mixed requests against ONE
-// server and returns the number of functional errors (wrong status / value).
-func c40Traffic(g, rounds int) (errs int64, hookRuns int64) {
-	var hr atomic.Int64
-	var h *vgirpc.HttpServer
-	var s *vgirpc.Server
-	hook := func(vgirpc.TransportKind, map[string]bool) error {
-		hr.Add(1)
-		_ = s.TransportKind()
-		return nil
-	}
-	h, s, sf := c40NewHTTP("", hook)
-	defer sf.Close()
-	sessHdr, acceptHdr := vgirpc.VerifC13SessionHeaders()
-	var nerr atomic.Int64
-	bad := func(what string, a ...any) {
-		nerr.Add(1)
-		if nerr.Load() < 5 {
-			fmt.Fprintf(os.Stderr, "c40 traffic: "+what+"\n", a...)
-		}
-	}
-	encs := []map[string]string{nil, {"Accept-Encoding": "zstd"}, {"Accept-Encoding": "gzip"}, {"X-VGI-Accept-Encoding": "zstd"}}
-	body := func(r HTTPResp) []byte {
-		enc := r.Header.Get("Content-Encoding")
-		if enc == "" {
-			enc = r.Header.Get("X-VGI-Content-Encoding")
-		}
-		data, err := vgirpc.DecodeContentEncoding(r.Body, enc, 1<<26)
-		if err != nil {
-			bad("decode %q: %v", enc, err)
-		}
-		return data
-	}
-	start := make(chan struct{})
-	var wg sync.WaitGroup
-	var sharedTok atomic.Value
-	for i := 0; i < g; i++ {
-		wg.Add(1)
-		go func(i int) {
-			defer wg.Done()
-			<-start
-			for k := 0; k < rounds; k++ {
-				hdr := encs[(i+k)%len(encs)]
-				switch (i + k) % 8 {
-				case 0: // unary
-					r := DoHTTP(h, "POST", "/u_int", ReqBytes(PIntBatch(int64(i)), StdMeta("u_int", "r", "")), hdr)
-					st := ParseStreams(body(r))
-					if r.Status != 200 || r.Panic != nil || len(st) == 0 || len(st[0].Frames) == 0 || len(st[0].Frames[len(st[0].Frames)-1].Vals) != 1 || st[0].Frames[len(st[0].Frames)-1].Vals[0] != int64(i) {
-						bad("unary status %d", r.Status)
-					}
-				case 1: // describe
-					r := DoHTTP(h, "POST", "/__describe__", ReqBytes(PIntBatch(1), StdMeta("__describe__", "r", "")), hdr)
-					if r.Status != 200 || r.Panic != nil {
-						bad("describe status %d", r.Status)
-					}
-					if s.ProtocolHash() == "" {
-						bad("empty protocol hash")
-					}
-				case 2: // pages
-					for _, p := range []string{"/", "/describe", "/nothing-here"} {
-						r := DoHTTP(h, "GET", p, nil, hdr)
-						if r.Panic != nil || (p != "/nothing-here" && r.Status != 200) {
-							bad("page %s status %d", p, r.Status)
-						}
-						body(r)
-					}
-				case 3: // health + capability probe
-					r := DoHTTP(h, "GET", "/health", nil, hdr)
-					if r.Status != 200 || r.Panic != nil || !bytes.Contains(body(r), []byte("c40-server")) {
-						bad("health status %d", r.Status)
-					}
-					r = DoHTTP(h, "OPTIONS", "/health", nil, nil)
-					if r.Panic != nil {
-						bad("options panic")
-					}
-				case 4: // producer: init and continuations
-					r := DoHTTP(h, "POST", "/prod/init", ReqBytes(PIntBatch(2), StdMeta("prod", "r", "")), hdr)
-					if r.Status != 200 || r.Panic != nil {
-						bad("prod init status %d", r.Status)
-					}
-					body(r)
-				case 5: // exchange: init, then two exchanges echoing the tokens
-					r := DoHTTP(h, "POST", "/exch/init", ReqBytes(PIntBatch(2), StdMeta("exch", "r", "")), hdr)
-					cur, call := vgirpc.FindStreamTokens(body(r))
-					if r.Status != 200 || cur == nil {
-						bad("exch init status %d", r.Status)
-						continue
-					}
-					for turn := 0; turn < 2 && cur != nil; turn++ {
-						m := [][2]string{{vgirpc.MetaStreamState, string(cur)}}
-						if call != nil {
-							m = append(m, [2]string{vgirpc.MetaCallState, string(call)})
-						}
-						r = DoHTTP(h, "POST", "/exch/exchange", c11InputStream(inSchemaX, [][]int64{{int64(7 + turn)}}, m), hdr)
-						data := body(r)
-						st := ParseStreams(data)
-						if r.Status != 200 || r.Panic != nil || len(st) == 0 {
-							bad("exchange status %d", r.Status)
-							break
-						}
-						got := false
-						for _, f := range st[0].Frames {
-							if f.Kind == "data" && len(f.Vals) == 1 && f.Vals[0] == int64(7+turn) {
-								got = true
-							}
-						}
-						if !got {
-							bad("exchange value")
-						}
-						cur, _ = vgirpc.FindStreamTokens(data)
-					}
-				case 6: // sticky: own session
-					h1 := map[string]string{acceptHdr: "true"}
-					r := DoHTTP(h, "POST", "/c40_open", ReqBytes(PIntBatch(100), StdMeta("c40_open", "r", "")), h1)
-					tok := r.Header.Get(sessHdr)
-					if r.Status != 200 || tok == "" {
-						bad("open status %d tok %q", r.Status, tok)
-						continue
-					}
-					sharedTok.Store(tok)
-					r = DoHTTP(h, "POST", "/c40_peek", ReqBytes(PIntBatch(0), StdMeta("c40_peek", "r", "")), map[string]string{sessHdr: tok})
-					if r.Status != 200 || r.Panic != nil {
-						bad("peek status %d", r.Status)
-					}
-				case 7: // sticky: a session shared between goroutines
-					tok, _ := sharedTok.Load().(string)
-					if tok == "" {
-						continue
-					}
-					r := DoHTTP(h, "POST", "/c40_peek", ReqBytes(PIntBatch(0), StdMeta("c40_peek", "r", "")), map[string]string{sessHdr: tok})
-					if r.Panic != nil {
-						bad("shared peek panic")
-					}
-				}
-			}
-		}(i)
-	}
-	close(start)
-	wg.Wait()
-	if hr.Load() != 1 {
-		bad("serve-start hook ran %d times", hr.Load())
-	}
-	if s.TransportKind() != vgirpc.TransportKindHTTP {
-		bad("transport kind %q", s.TransportKind())
-	}
-	return nerr.Load(), hr.Load()
-}
-
 func c40HarnessDir() string {
 	if d := os.Getenv("VERIF_HARNESS_DIR"); d != "" {
 		return d
@@ -981,6 +889,26 @@ func c40HarnessDir() string {
 	return filepath.Join(filepath.Dir(exe), "..", "harness")
 }
 
+const c40RaceMain = `package main
+
+import (
+	"fmt"
+	"os"
+	"strconv"
+)
+
+func main() {
+	g, _ := strconv.Atoi(os.Args[1])
+	r, _ := strconv.Atoi(os.Args[2])
+	errs, hr := c40Traffic(g, r)
+	fmt.Printf("{\"errors\":%d,\"hook_runs\":%d}\n", errs, hr)
+}
+`
+
+// c40RunRace builds a small stand-alone driver (c40traffic.go + rpcutil.go +
+// httputil.go + a generated main, put together with go build -overlay so that
+// nothing is written into the harness tree) with -race and runs it.  Build and
+// run are both under a timeout: a hang is reported as errors, never waited out.
 func c40RunRace(in c40In) CaseOut {
 	coqIn := App("C40.Race", N(uint64(in.N)), N(uint64(in.Rounds)))
 	fail := func(why string, out string) CaseOut {
@@ -994,12 +922,27 @@ func c40RunRace(in c40In) CaseOut {
 	if dir == "" {
 		return fail("harness dir unknown", "")
 	}
+	dir, _ = filepath.Abs(dir)
 	tmp, err := os.MkdirTemp("", "c40race")
 	if err != nil {
 		return fail(err.Error(), "")
 	}
 	defer os.RemoveAll(tmp)
-	bin := filepath.Join(tmp, "vh_race")
+	bin := filepath.Join(tmp, "c40race")
+	mainFile := filepath.Join(tmp, "main.go")
+	if err := os.WriteFile(mainFile, []byte(c40RaceMain), 0o644); err != nil {
+		return fail(err.Error(), "")
+	}
+	pkg := filepath.Join(dir, "cmd", "c40race")
+	overlay := map[string]map[string]string{"Replace": {filepath.Join(pkg, "main.go"): mainFile}}
+	for _, f := range []string{"c40traffic.go", "rpcutil.go", "httputil.go"} {
+		overlay["Replace"][filepath.Join(pkg, f)] = filepath.Join(dir, "cmd", "vh", f)
+	}
+	ov, _ := json.Marshal(overlay)
+	ovFile := filepath.Join(tmp, "overlay.json")
+	if err := os.WriteFile(ovFile, ov, 0o644); err != nil {
+		return fail(err.Error(), "")
+	}
 	env := []string{}
 	for _, kv := range os.Environ() {
 		if strings.HasPrefix(kv, "GOSUMDB=") || strings.HasPrefix(kv, "GOFLAGS=") || strings.HasPrefix(kv, "GOPROXY=") || strings.HasPrefix(kv, "CGO_ENABLED=") {
@@ -1009,22 +952,24 @@ func c40RunRace(in c40In) CaseOut {
 	}
 	env = append(env, "GOFLAGS=-mod=mod", "GOPROXY=off", "CGO_ENABLED=1")
 	t0 := time.Now()
-	build := exec.Command("go", "build", "-race", "-tags", "verif", "-o", bin, "./cmd/vh")
+	bctx, bcancel := context.WithTimeout(context.Background(), 10*time.Minute)
+	defer bcancel()
+	build := exec.CommandContext(bctx, "go", "build", "-race", "-tags", "verif", "-overlay", ovFile, "-o", bin, "./cmd/c40race")
 	build.Dir, build.Env = dir, env
 	if out, err := build.CombinedOutput(); err != nil {
 		return fail("go build -race: "+err.Error(), string(out))
 	}
 	buildS := time.Since(t0).Seconds()
-	inner, _ := json.Marshal(c40In{Kind: "race_inner", N: in.N, Rounds: in.Rounds})
-	inFile := filepath.Join(tmp, "in.jsonl")
-	outFile := filepath.Join(tmp, "out.jsonl")
-	if err := os.WriteFile(inFile, append(inner, '\n'), 0o644); err != nil {
-		return fail(err.Error(), "")
-	}
 	t1 := time.Now()
-	run := exec.Command(bin, "C40", "-only-inputs", "-inputs", inFile, "-out", outFile)
+	budget := 60*time.Second + time.Duration(in.Rounds)*4*time.Second
+	rctx, rcancel := context.WithTimeout(context.Background(), budget)
+	defer rcancel()
+	run := exec.CommandContext(rctx, bin, strconv.Itoa(in.N), strconv.Itoa(in.Rounds))
 	run.Env = append(env, "GORACE=halt_on_error=0 exitcode=0 log_path="+filepath.Join(tmp, "racelog"))
-	runOut, runErr := run.CombinedOutput()
+	run.WaitDelay = 5 * time.Second
+	var stdout, stderr bytes.Buffer
+	run.Stdout, run.Stderr = &stdout, &stderr
+	runErr := run.Run()
 	runS := time.Since(t1).Seconds()
 	races := 0
 	var sample string
@@ -1041,19 +986,20 @@ func c40RunRace(in c40In) CaseOut {
 	}
 	errs := int64(0)
 	var line struct {
-		Obs struct {
-			Errors int64 `json:"errors"`
-			Reqs   int64 `json:"hook_runs"`
-		} `json:"obs"`
+		Errors int64 `json:"errors"`
 	}
-	if b, err := os.ReadFile(outFile); err == nil && json.Unmarshal(bytes.TrimSpace(b), &line) == nil && runErr == nil {
-		errs = line.Obs.Errors
+	tags := []string{"race", "race-detector"}
+	if runErr == nil && json.Unmarshal(bytes.TrimSpace(stdout.Bytes()), &line) == nil {
+		errs = line.Errors
 	} else {
-		errs = 1000 // the -race binary did not complete
-		sample += "\n" + string(runOut)
+		errs = 1000 // the -race driver did not complete (crash, or the watchdog killed it)
+		tags = append(tags, "race-run-incomplete")
+		sample += fmt.Sprintf("\nrun error: %v\n", runErr) + stderr.String()
+		if len(sample) > 4000 {
+			sample = sample[:4000]
+		}
 	}
 	coqObs := App("C40.ORace", "true", N(uint64(races)), N(uint64(errs)))
-	tags := []string{"race", "race-detector"}
 	if races > 0 {
 		tags = append(tags, "data-race-reported")
 	}
@@ -1106,6 +1052,18 @@ func c40Boundary() []c40In {
 	pipe := [2]int{1, 0}
 	shm := [2]int{1, 1}
 	return []c40In{
+		// the first hook run FAILS while four other first requests are already
+		// waiting in notifyTransport: none of them may be dispatched before a
+		// hook run succeeded; exactly one re-runs the hook, the others then see
+		// its binding (the seeded single-flight variant hands them nil instead)
+		{Kind: "notify", Hook: true, Binds: c40Same(5, http), Outcomes: []bool{false, true},
+			Evs: []c40Ev{c40Go(0), c40Go(1), c40Go(2), c40Go(3), c40Go(4), c40Peek, c40Rel, c40Peek, c40Rel, c40Peek}},
+		// the same with two failures in a row and a late arrival
+		{Kind: "notify", Hook: true, Binds: c40Same(4, http), Outcomes: []bool{false, false, true},
+			Evs: []c40Ev{c40Go(0), c40Go(1), c40Go(2), c40Rel, c40Peek, c40Rel, c40Go(3), c40Peek, c40Rel, c40Peek}},
+		// a waiter announcing ANOTHER binding behind a failing, then a succeeding run
+		{Kind: "notify", Hook: true, Binds: [][2]int{http, pipe, http}, Outcomes: []bool{false, true, true},
+			Evs: []c40Ev{c40Go(0), c40Go(1), c40Go(2), c40Rel, c40Peek, c40Rel, c40Peek, c40Rel, c40Peek}},
 		// TestNotifyTransportRetriesAfterHookFailure
 		{Kind: "notify", Hook: true, Binds: c40Same(2, http), Outcomes: []bool{false, true},
 			Evs: []c40Ev{c40Go(0), c40Peek, c40Rel, c40Peek, c40Go(1), c40Rel, c40Peek}},
@@ -1206,7 +1164,7 @@ func c40Gen(r *rand.Rand, n int, tier string) []c40In {
 	if tier == "thorough" {
 		out = append(out, c40In{Kind: "race", N: 16, Rounds: 48})
 	} else {
-		out = append(out, c40In{Kind: "race", N: 16, Rounds: 4})
+		out = append(out, c40In{Kind: "race", N: 16, Rounds: 8})
 	}
 	for len(out) < n {
 		switch x := r.Intn(100); {
